@@ -87,7 +87,7 @@ def classify(res):
 
 
 def run_kani(tree, crate, harnesses, timeout_s, harness_timeout_s, extra_args=(), features=None, exact=True,
-             solver=None, jobs=None, env=None):
+             solver=None, jobs=None, env=None, cbmc_args=()):
     """harnesses: list of short harness names (fn names, unique in the crate). Returns dict name -> HarnessResult,
     plus the command line and total seconds."""
     os.makedirs(KANI_TARGET, exist_ok=True)
@@ -106,6 +106,8 @@ def run_kani(tree, crate, harnesses, timeout_s, harness_timeout_s, extra_args=()
     cmd += list(extra_args)
     for h in harnesses:
         cmd += ["--harness", h]
+    if cbmc_args:
+        cmd += ["--cbmc-args"] + list(cbmc_args)   # must be the last flag
     shown = "CARGO_NET_OFFLINE=true " + "".join("%s='%s' " % kv for kv in (env or {}).items()) + " ".join(cmd)
     rc, out, secs = run(cmd, cwd=tree, timeout=timeout_s, mem_gb=MEM_GB, env=env)
     results = {h: HarnessResult(h) for h in harnesses}
